@@ -256,9 +256,14 @@ def analyze(ctx, want):
         ob("C14.c", "unsafe-block:" + M.short_name(name), not bad,
            "operations inside the unsafe block: %s; unexpected: %s [%s]" % ([M.short_name(c) for c in inside], [M.short_name(c) for c in bad], why), "%s:%d" % (u["file"], u["ln"]))
     # the unsafe index: ids are only minted by the registry, the class table only grows, the closure is created last
-    for c in callers_of(F, r"internal::ids::CharClassID::new$"):
+    # who turns a number into a class id: the constructor and the conversions/arithmetic the id macro generates are plumbing
+    # (ids.rs); what matters is who uses them outside ids.rs
+    MINT = r"internal::ids::CharClassID::new$|<internal::ids::CharClassID as std::(convert::From<\w+>>::from|ops::Add<\w+>>::add|ops::AddAssign<\w+>>::add_assign)$"
+    for c in callers_of(F, MINT):
         fn = c[0]
-        ok = re.search(r"CharacterClassRegistry::add_character_class$|<internal::ids::CharClassID as std::convert::From<u\d+>>::from$", fn.name) is not None
+        if fn.file.endswith("internal/ids.rs"):
+            continue
+        ok = re.search(r"CharacterClassRegistry::add_character_class$", fn.name) is not None
         ob("C02.f", "class-id-minted-by:" + M.short_name(fn.name), ok, "CharClassID::new called in %s" % fn.name, fn.loc(c[1]))
         ob("C14.c", "class-id-minted-by:" + M.short_name(fn.name), ok, "CharClassID::new called in %s" % fn.name, fn.loc(c[1]))
     for c in callers_of(F, r"<internal::ids::CharClassID as std::convert::From<u\d+>>::from$|<u\d+ as std::convert::Into<internal::ids::CharClassID>>::into$"):
